@@ -190,6 +190,36 @@ def run(ck: Check, prog: Program) -> None:
     _ci = prog.cls('pjrpc.common.exceptions.JsonRpcError')
     _pp = _cpp(prog, _ci)
     ck.ob('CTOR-PRECEDENCE', 'JsonRpcError.__init__: a given code / message wins over the class-level default', not _pp)
+    # ... and from_json GIVES them: every error object it returns is built with the code, message and data read from the document
+    # (a class-level default code is not the code that was on the wire)
+    from ..util import bound_args as _bargs
+    from ..flow import Flow as _FlowJ
+    _fj = prog.func(EXC + '.JsonRpcError.from_json')
+    _init = prog.func(EXC + '.JsonRpcError.__init__')
+    _cfgj = CFG(_fj, prog)
+    _flj = _FlowJ(_cfgj)
+    _jp = _fj.params[1].arg if len(_fj.params) > 1 else 'json_data'
+    _n_ret = 0
+    for _n in _cfgj.stmt_nodes():
+        if _n.kind != 'stmt' or not isinstance(_n.ast, ast.Return) or _n.ast.value is None:
+            continue
+        for _al in _flj.alts(_n, _n.ast.value):
+            _v = _al.expr
+            if not isinstance(_v, ast.Call):
+                continue
+            _n_ret += 1
+            _ba = _bargs(_init, _v) or {}
+            for _member in ('code', 'message', 'data'):
+                _e = _ba.get(_member)
+                _src = [norm(a2.expr) for a2 in _flj.alts(_al.node or _n, _e)] if _e is not None else []
+                _ok = bool(_src) and all(f"'{_member}'" in t for t in _src)
+                ck.ob('CTOR-PRECEDENCE', f'JsonRpcError.from_json hands the document\'s `{_member}` to the error it builds', _ok)
+                if not _ok:
+                    ck.finding('CTOR-PRECEDENCE', _fj.qualname, f'`{_member}` of the document is not given to the constructor', _fj.module.rel, _v.lineno,
+                               f'`{norm(_v)[:80]}` builds the error without the `{_member}` read from the document ({_src or "not passed"}): the error comes back '
+                               f'with the class default instead — an unregistered wire code deserialised with a base class that has a code of its own '
+                               f'(ServerError, -32050) re-serialises as another code')
+    ck.require('CTOR-PRECEDENCE', 'error constructions in JsonRpcError.from_json', _n_ret, 1)
     for _c, _m, _l in _pp:
         ck.finding('CTOR-PRECEDENCE', _ci.qualname + '.__init__', _c, _ci.module.rel, _l, _m)
     # ---- REGISTRY + FWD-PARAM ------------------------------------------------------------------
